@@ -114,6 +114,9 @@ func Run(c *hx.Ctx) {
 	for _, in := range w.frameProbes() {
 		run(c, in)
 	}
+	for _, in := range w.frameGapProbes() {
+		run(c, in)
+	}
 
 	// ---- WriteMessage ----
 	k := c.N(18, 200)
@@ -182,6 +185,9 @@ func (w *world) genFrame(i int) input {
 		in.Stream, in.Label = hx.Hex(s), "random-stream"
 		return in
 	}
+	if c.Intn(7) == 0 {
+		return w.emptyPayloadFrame(magic, w.anyCmd(), c.Intn(7), "gen-empty-payload")
+	}
 	var b built
 	if c.Intn(8) == 0 {
 		b = w.build(embKinds[c.Intn(len(embKinds))])
@@ -220,7 +226,12 @@ func (w *world) genFrame(i int) input {
 	} else {
 		s = frame(magic, cmd, p)
 	}
-	switch c.Intn(16) {
+	untouched := (label == "valid" || label == "valid-writemessage") && !b.noAcc
+	hdrMut := c.Intn(16)
+	if untouched && (hdrMut > 7 || hdrMut == 6) {
+		in.Expect = "ok"
+	}
+	switch hdrMut {
 	case 0:
 		binary.LittleEndian.PutUint32(s, magic^uint32(1<<uint(c.Intn(32))))
 		label = "bad-magic"
@@ -371,4 +382,104 @@ func (w *world) inChild(ins []input) (crashed bool) {
 		}
 	}
 	return crashed
+}
+
+var unknownCmds = []string{"", "x", "pingx", "PING", "getaddr1", "exactly12byt", "ping\x00x"}
+
+func (w *world) anyCmd() string {
+	all := append(append(append([]string{}, modelKinds...), embKinds...), unknownCmds...)
+	return all[w.c.Intn(len(all))]
+}
+
+// emptyPayloadFrame: a header-only frame (Length == 0) for any command. variant: 0 correct
+// checksum of the empty payload; 1..4 that checksum with byte variant-1 corrupted; 5 random
+// checksum; 6 correct checksum but wrong magic.
+func (w *world) emptyPayloadFrame(magic uint32, cmd string, variant int, label string) input {
+	c := w.c
+	s := frame(magic, cmd, nil)
+	in := input{Kind: "frame", Magic: magic}
+	switch {
+	case variant == 0:
+		label += ":checksum-ok"
+		if _, unknown := types.VerifMakeEmptyMessage(string(trimNul(cmd))).(*types.UnknownMessage); unknown || cmd == pcom.GetADDR_TYPE {
+			in.Expect = "ok" // getaddr and unknown commands accept the empty payload
+		}
+	case variant <= 4:
+		s[20+variant-1] ^= byte(1 << uint(c.Intn(8)))
+		label += fmt.Sprintf(":checksum-byte-%d", variant-1)
+	case variant == 5:
+		for {
+			copy(s[20:], c.Bytes(4))
+			if string(s[20:24]) != string(checksum4(nil)) {
+				break
+			}
+		}
+		label += ":checksum-random"
+	default:
+		binary.LittleEndian.PutUint32(s, magic^uint32(1<<uint(c.Intn(32))))
+		label += ":bad-magic"
+	}
+	if c.Intn(3) == 0 {
+		s = append(s, c.Bytes(1+c.Intn(9))...) // bytes of a following message
+		label += "+trailing"
+	}
+	in.Stream, in.Label = hx.Hex(s), label
+	return in
+}
+
+func trimNul(s string) []byte {
+	b := []byte(s)
+	if len(b) > 12 {
+		b = b[:12]
+	}
+	for len(b) > 0 && b[len(b)-1] == 0 {
+		b = b[:len(b)-1]
+	}
+	return b
+}
+
+// frameGapProbes: deterministic frame-level probes for the corners a random generator rarely
+// hits: header-only frames of EVERY command (and unknown ones) with right / corrupted / random
+// checksum, wrong magic and following bytes; the header cut after each of its 24 bytes; a command
+// field with non-zero bytes behind the NUL padding; Length exactly MAX_PAYLOAD_LEN (accepted) and
+// MAX_PAYLOAD_LEN+1 (rejected) with the body really present and correctly checksummed.
+func (w *world) frameGapProbes() []input {
+	var ins []input
+	magic := magics[0]
+	all := append(append(append([]string{}, modelKinds...), embKinds...), unknownCmds...)
+	for i, cmd := range all {
+		for v := 0; v <= 6; v++ {
+			in := w.emptyPayloadFrame(magic, cmd, v, "probe:empty-payload:"+string(trimNul(cmd)))
+			// every command's correct frame and one corruption per command go through Coq as well
+			// (the model hashes the empty payload each time); the rest is oracle only
+			if !(v == 0 || v == 1+i%4) {
+				in.NoCoq = true
+			}
+			ins = append(ins, in)
+		}
+	}
+	base := frame(magic, pcom.PING_TYPE, le64(77))
+	for k := 0; k <= 24; k++ {
+		ins = append(ins, input{Kind: "frame", Magic: magic, Stream: hx.Hex(base[:k]), Label: fmt.Sprintf("probe:header-cut-%d", k)})
+	}
+	for _, cmd := range []string{"ping\x00\x00\x00\x00\x00\x00\x00\x01", "getaddr\x00\x00\x00\x00\xff", "addr\x00r", "ve\x00sion"} {
+		p := le64(9)
+		in := input{Kind: "frame", Magic: magic, Stream: hx.Hex(frame(magic, cmd, p)), Label: "probe:cmd-bytes-after-nul", Expect: "ok"}
+		ins = append(ins, in)
+	}
+	// Length == MAX_PAYLOAD_LEN and MAX_PAYLOAD_LEN+1, body present, checksum right
+	for _, d := range []uint32{0, 1} {
+		n := pcom.MAX_PAYLOAD_LEN + d
+		body := make([]byte, n)
+		for i := range body {
+			body[i] = 0x5a
+		}
+		h := frame(magic, "bigunknown", body)[:24]
+		in := input{Kind: "frame", Magic: magic, Stream: hx.Hex(h), Pad: n, PadByte: 0x5a, Label: fmt.Sprintf("probe:length-max+%d-with-body", d)}
+		if d == 0 {
+			in.Expect = "ok"
+		}
+		ins = append(ins, in)
+	}
+	return ins
 }
